@@ -9,12 +9,13 @@ def run(ck):
     import contracts_async  # noqa
     ck.assumptions += ['every await completes; the session table (CHashMap) and the mpsc channel behave as a map / a FIFO',
                        'Frame::recv_from yields one whole datagram and its source address']
-    ck.out_of_scope += ['SOCKS5 UDP associate, QUIC datagrams, session tables of the HTTP/QUIC hops (socket-driven loops across tasks); the frame reader of the inline stream hop IS included', 'reply path and labelling of replies',
+    ck.out_of_scope += ['SOCKS5 UDP associate, the QUIC datagram transport itself, session tables of the HTTP/QUIC hops (socket-driven loops across tasks); the frame reader of the inline stream hop IS included', 'reply path and labelling of replies',
                         'reassembly of fragments under reordering / duplication (C11; the PRODUCER side -- a payload larger than one QUIC packet is cut into fragments that announce their own number and carry every byte once -- is shared with C11 and decided here too)',
                         'tproxy UDP accept (recvmsg ancillary data)']
     udp.spec_reverse_udp_accept(ck)
     udp.spec_reverse_session_end(ck)
     udp.spec_udp_frame_reader(ck)
+    udp.spec_quic_fragment_ids(ck)
     # datagrams carried inline over a stream hop (HTTP / QUIC): each frame comes out once, whole, whatever the segmentation
     ck.plans.append(codec.replay_plan)
     codec.spec_stream_frame_reader(ck, nreads=3 if ck.tier == 'quick' else 5)
